@@ -4,6 +4,8 @@
   registered) and the literal part of attribute expansion.
 -/
 import Rox.Props.C05
+import Rox.Lemmas.RoundTrip3
+import Rox.Props.C03
 
 namespace Rox.Props.C07
 open Rox Rox.TM
@@ -33,5 +35,45 @@ theorem literal_same_at_any_depth (T : Tables) (txt : Bytes) (ents : List Entity
   rw [C05.normAttrLoop_literal T txt ents rec ld tr l _ pos buf (by omega) h,
       C05.normAttrLoop_literal T txt ents rec ld' tr' l _ pos' buf (by omega) h]
   rfl
+
+/-- The table facts used by the DOCTYPE / reference part hold of the tables of the build. -/
+theorem generated_tables_canon3 : Rox.Spec.Canon.TablesCanon3 Generated.tables := by
+  refine ⟨?_, ?_, ?_, ?_, ?_, ?_, ?_⟩
+  · decide
+  · decide
+  · decide
+  · apply C03.all_bytes; decide +kernel
+  · apply C03.all_bytes; decide +kernel
+  · decide
+  · decide
+
+/-- **An entity reference behaves exactly as its replacement text written in place** (every
+abstract document `<n as> pre mid post </n>` of the class `Spec.Canon.ok` — any shape, depth and
+width —, `mid` any run of children (elements with attributes, comments, text) that contains no
+apostrophe, the reference standing between markup): the document with `mid` moved into the
+replacement text of an internal general entity and `&e;` written in its place,
+
+    <!DOCTYPE n [<!ENTITY e 'MID'>]><n as>PRE&e;POST</n>
+
+parses (with `allow_dtd = true`) to exactly the tree of the inline document `<n as>PRE MID POST</n>`:
+the same nodes in the same order with the same parents, names, attribute lists, comment bodies and
+texts (`view` reads the arena back; the inline document's tree is `C03.tree_mirrors_document`). -/
+theorem entity_reference_equals_replacement_text (opt : Opt) (hdtd : opt.allowDtd = true)
+    (n : Bytes) (as : List (Bytes × Bytes)) (pre mid post : List Rox.Spec.Canon.XNode)
+    (hx : Rox.Spec.Canon.hoistOk n as pre mid post = true)
+    (hlim : Rox.Spec.Canon.count (.elem n as (pre ++ mid ++ post)) + 1 ≤ opt.nodesLimit)
+    (hl32 : opt.nodesLimit ≤ 4294967295)
+    (hattrs : Rox.Lemmas.attrCount (.elem n as (pre ++ mid ++ post)) < 4294967295) :
+    ∃ dh di, parse Generated.tables (Rox.Spec.Canon.hoist n as pre mid post) opt = .ok dh ∧
+      parse Generated.tables (Rox.Spec.Canon.render (.elem n as (pre ++ mid ++ post))) opt = .ok di ∧
+      dh.nodes.toList.map (Rox.Spec.Canon.view dh) = di.nodes.toList.map (Rox.Spec.Canon.view di) := by
+  have hok : Rox.Spec.Canon.ok (.elem n as (pre ++ mid ++ post)) = true := by
+    unfold Rox.Spec.Canon.hoistOk at hx
+    simp only [Bool.and_eq_true] at hx
+    exact hx.1.1.1
+  obtain ⟨dh, ph, vh⟩ := Rox.Lemmas.parse_hoist Generated.tables C01.generated_tables_ok
+    C03.generated_tables_canon generated_tables_canon3 opt hdtd n as pre mid post hx hlim hl32 hattrs
+  obtain ⟨di, pi, vi⟩ := C03.tree_mirrors_document n as (pre ++ mid ++ post) hok opt hlim hl32 hattrs
+  exact ⟨dh, di, ph, pi, by rw [vh, vi]⟩
 
 end Rox.Props.C07
